@@ -86,7 +86,12 @@ func checkSuffix(text []byte) (msg string, bad bool) {
 			return fmt.Sprintf("InvertSA: sainv[sa[%d]=%d] = %d", i, p, inv[p]), true
 		}
 	}
-	for combo := 0; combo < 4; combo++ {
+	// Not supplied is nil - or, from a caller that keeps its slices, a slice
+	// of another length (what is left of an earlier, shorter or longer text):
+	// LCP then computes the array itself. Both such slices may well be cut
+	// from one buffer of the caller.
+	spare := make([]int32, 2*n+3)
+	for combo := 0; combo < 7; combo++ {
 		var saArg, invArg []int32
 		if combo&1 != 0 {
 			saArg = append([]int32(nil), sa...)
@@ -94,6 +99,19 @@ func checkSuffix(text []byte) (msg string, bad bool) {
 		if combo&2 != 0 {
 			invArg = append([]int32(nil), inv...)
 		}
+		switch combo {
+		case 4:
+			saArg, invArg = spare[:0], spare[:0]
+		case 5:
+			saArg, invArg = spare[:n+1], spare[1:n+2]
+		case 6:
+			saArg, invArg = append([]int32(nil), sa...), spare[:n/2]
+		}
+		if combo >= 4 && n == 0 {
+			continue
+		}
+		supplied := len(saArg) == n
+		suppliedInv := supplied && len(invArg) == n
 		lcp := arena[3*gw+2*n : 3*gw+3*n]
 		for i := range lcp {
 			lcp[i] = int32(1000 + i)
@@ -106,19 +124,19 @@ func checkSuffix(text []byte) (msg string, bad bool) {
 			return "LCP wrote outside of the table it was given", true
 		}
 		for i := range saArg {
-			if saArg[i] != sa[i] {
+			if supplied && saArg[i] != sa[i] {
 				return "LCP modified the suffix array it was given", true
 			}
 		}
 		for i := range invArg {
-			if invArg[i] != inv[i] {
+			if suppliedInv && invArg[i] != inv[i] {
 				return "LCP modified the inverse suffix array it was given", true
 			}
 		}
 		for i := range lcp {
 			if lcp[i] != want[i] {
-				return fmt.Sprintf("LCP (sa supplied: %v, sainv supplied: %v): lcp[%d]=%d; the suffixes %d and %d share %d bytes",
-					combo&1 != 0, combo&2 != 0, i, lcp[i], saAt(sa, i-1), sa[i], want[i]), true
+				return fmt.Sprintf("LCP (sa: %d entries for %d bytes, sainv: %d entries, operand combination %d): lcp[%d]=%d; the suffixes %d and %d share %d bytes",
+					len(saArg), n, len(invArg), combo, i, lcp[i], saAt(sa, i-1), sa[i], want[i]), true
 			}
 		}
 	}
